@@ -11,7 +11,7 @@ fn wire(args: &[Vec<u8>]) -> Vec<u8> { let mut w = vec![]; V::Array(args.iter().
 fn gen_request(r: &mut Rng) -> Vec<u8> {
     let v = |x: &[u8]| x.to_vec();
     match r.below(24) {
-        0..=9 => { let mut c = c01::gen_cmd(r); if c[0] == b"RANDOMKEY" || c[0] == b"KEYS" { c = vec![v(b"PING")]; } wire(&c) }
+        0..=9 => { let mut c = c01::gen_cmd(r); if c[0] == b"RANDOMKEY" || c[0] == b"KEYS" || c[0] == b"TTL" || c[0] == b"PTTL" { c = vec![v(b"PING")]; } /* order-/time-dependent replies cannot be canonicalised inside a raw stream */ wire(&c) }
         10 => wire(&[v(b"ECHO"), v(b"a\r\nb")]),
         11 => wire(&[v(b"NOSUCH\r\n+INJECTED"), v(b"x")]),
         12 => wire(&[v(b"get\r\n"), v(b"k1")]),
